@@ -117,6 +117,16 @@ CHECKS = {
    note="Trusted: TLC, the GDS constructor and raw projection glue, canonical forms (rect = axis-aligned 4-gon; polygons up to "
         "rotation/reversal). Err is always acceptable per the statement.",
    tech="TLA+ semantics spec + TLC case enumeration; S->I replay"),
+ "C07": dict(cat="model_checking", ref="§6 C07",
+   text="RawGds.tla states the export obligations per cell (SREF per instance, closed BOUNDARY, OPEN PATH with width, layer/"
+        "purpose numbers, TEXT on the Label purpose at a point inside the shape by exact geometry); MC_RawGds enumerates shapes "
+        "(every rectangle corner order; L/U/T/staircase/45-degree/general/sliver polygons from every start vertex in both "
+        "directions; Manhattan paths x widths) x nets x layers/purposes x units x 3-level hierarchies in 64 orientation pairs. The "
+        "structure the crate exports for each cell is validated by TLC against the obligations (I->S); from_gds(to_gds(lib)) is "
+        "compared with lib in canonical form (S->I).",
+   note="Trusted: TLC, raw constructor/projection glue, canonical forms. Domain: shapes on one layer number pairwise disjoint "
+        "(checked as a TLC invariant of the generator), simple polygons, Manhattan paths.",
+   tech="TLA+ export-obligation spec; TLC case enumeration; I->S validation of exported structures + S->I round trip"),
 }
 
 PENDING = {}
